@@ -140,9 +140,34 @@ mod node_ptr {
 
 ///////////////////////////////////////////// SkipList /////////////////////////////////////////////
 
+/// The nodes of a skip list.  Shared by the skip list and its iterators; the last one to go
+/// deallocates the nodes.
+struct Body<K, V, const MAX_HEIGHT: usize> {
+    head: AtomicPtr<Node<K, V, MAX_HEIGHT>>,
+}
+
+impl<K, V, const MAX_HEIGHT: usize> std::ops::Deref for Body<K, V, MAX_HEIGHT> {
+    type Target = AtomicPtr<Node<K, V, MAX_HEIGHT>>;
+
+    fn deref(&self) -> &Self::Target {
+        &self.head
+    }
+}
+
+impl<K, V, const MAX_HEIGHT: usize> Drop for Body<K, V, MAX_HEIGHT> {
+    fn drop(&mut self) {
+        let mut ptr = self.head.load(Ordering::Acquire);
+        while !ptr.is_null() {
+            let to_drop = ptr;
+            ptr = node_ptr::get_next(ptr, 0);
+            drop(unsafe { Box::from_raw(to_drop) });
+        }
+    }
+}
+
 /// A lock-free skip list, generic over keys and values.
 pub struct SkipList<K, V, const MAX_HEIGHT: usize = DEFAULT_MAX_HEIGHT> {
-    head: Arc<AtomicPtr<Node<K, V, MAX_HEIGHT>>>,
+    head: Arc<Body<K, V, MAX_HEIGHT>>,
 }
 
 impl<K: Eq + Ord + Default, V: Default, const MAX_HEIGHT: usize> SkipList<K, V, MAX_HEIGHT> {
@@ -315,19 +340,10 @@ impl<K: Eq + Ord + Default, V: Default, const MAX_HEIGHT: usize> Default
         for idx in 0..MAX_HEIGHT {
             node_ptr::set_next(head, idx, std::ptr::null_mut());
         }
-        let head = Arc::new(AtomicPtr::new(head));
+        let head = Arc::new(Body {
+            head: AtomicPtr::new(head),
+        });
         Self { head }
-    }
-}
-
-impl<K, V, const MAX_HEIGHT: usize> Drop for SkipList<K, V, MAX_HEIGHT> {
-    fn drop(&mut self) {
-        let mut ptr = self.head.load(Ordering::Acquire);
-        while !ptr.is_null() {
-            let to_drop = ptr;
-            ptr = node_ptr::get_next(ptr, 0);
-            drop(unsafe { Box::from_raw(to_drop) });
-        }
     }
 }
 
@@ -336,7 +352,7 @@ impl<K, V, const MAX_HEIGHT: usize> Drop for SkipList<K, V, MAX_HEIGHT> {
 /// A SkipList iterator.  Will outlast the skip list it comes from if so chosen.
 #[derive(Clone)]
 pub struct SkipListIterator<K, V, const MAX_HEIGHT: usize = DEFAULT_MAX_HEIGHT> {
-    head: Arc<AtomicPtr<Node<K, V, MAX_HEIGHT>>>,
+    head: Arc<Body<K, V, MAX_HEIGHT>>,
     node: *mut Node<K, V, MAX_HEIGHT>,
 }
 
